@@ -2,7 +2,7 @@
 (* C16, PROPERTY LAYER.  What the property statement says about the observable
    operations of the model database / run context, and nothing else:
 
-     Store(m, name, descr) -> ok | crash | pending | refused | error:<T>
+     Store(m, name, descr) -> ok | crash | inflight | pending | refused | error:<T>
      Retrieve(key m)       -> ok(content) | pending | notfound | error:<T>
      ResolveName(name)     -> ok(key) | pending | notfound | error:<T>
      RetrieveName(name)    -> ok(content) | pending | notfound | error:<T>
@@ -50,8 +50,10 @@ IsErr(out) == out \notin {"ok", "crash", "pending", "notfound", "refused"}
 -----------------------------------------------------------------------------
 \* Store
 
+\* "inflight": the store of ANOTHER process has begun and has not returned yet (two-process traces): like an
+\* interrupted store it may or may not be visible; its own later event carries the final outcome
 StoreVerdict(S, m, out) ==
-    IF out \in {"ok", "crash"} THEN "ok"
+    IF out \in {"ok", "crash", "inflight"} THEN "ok"
     ELSE IF out = "refused" THEN "R"           \* documented refusal: the caller decides (troublesome text only)
     ELSE IF m \in S.interrupted THEN (IF out = "pending" THEN "ok" ELSE "U")
     ELSE "I"     \* (I) a store of a model whose own stores were never interrupted must work
